@@ -390,7 +390,7 @@ PreludeStep ==
      [] p.op = "CreateValidator" -> CreateValidator(p.v, p.d)
      [] OTHER -> FALSE
 NextBlind ==     \* a freshly loaded state copied and the copy committed, with and without reads in between
-   \/ CopyStep("CopySwap") \/ Reload \/ Commit \/ Root \/ Deposit(1, 7)
+   \/ CopyStep("CopySwap") \/ CopyStep("Copy") \/ Reload \/ Commit \/ Root \/ Deposit(1, 7)
 NextReset ==     \* one object carried over a staking-period boundary: records flushed / committed / reloaded and read, the reset, the
                  \* same key recorded again
    \/ AddRecord(0, 1, 2, 4) \/ ReadRecord(0, 1)
